@@ -3,6 +3,8 @@ import CV.Model.LineSpec
 import CV.Model.Irc
 import CV.Proofs.Line
 import CV.Proofs.Irc
+import CV.Model.IrcComp
+import CV.Proofs.IrcComp
 /-
 C18 — the line protocol is segmentation-invariant; IRC messages are exactly one line.
 
@@ -11,6 +13,8 @@ Models: CV/Model/Line.lean (`circuits/protocols/line.py`), CV/Model/Irc.lean
 (`circuits/protocols/irc/message.py`, `utils.py: parsemsg`, `commands.py`).
 Spec predicates: CV/Model/LineSpec.lean (`isReading`, `untaggedOk`), `Irc.oneLine`,
 `Irc.wellFormed`.  Helper lemmas: CV/Proofs/Line.lean, CV/Proofs/Irc.lean.
+Component part (last section): CV/Model/IrcComp.lean (`protocol.py`: `IRC.line`, `request`, `ping`;
+`utils.py`: `strip`, `parseprefix`; `Message.from_string`; the UTF-8 codec), CV/Proofs/IrcComp.lean.
 -/
 namespace CV.C18
 open CV CV.Line CV.Irc
@@ -222,5 +226,243 @@ theorem roundtrip_excluded_witness :
     parsemsg pyIsSpace (body ⟨some "p q".toList, some "X".toList, ["a".toList]⟩)
       ≠ some (expectedParse ⟨some "p q".toList, some "X".toList, ["a".toList]⟩) :=
   ⟨by decide, by decide, by decide, by decide, by decide⟩
+
+/-! ## The IRC component: bytes -> `Line` -> `IRC.line` -> `response` events, `request` -> `write` -/
+
+/-- `bytes.decode('utf-8', 'replace')` inverts `str.encode('utf-8')`: the text the parser sees
+    is the text that was serialised. -/
+theorem utf8_roundtrip (s : Str) : decodeUtf8 (encodeUtf8 s) = s :=
+  decodeUtf8_encodeUtf8 s
+
+/-- `IRC.request` writes exactly one CRLF-terminated line: the bytes are `x ++ CR LF` with no LF
+    in `x` (and `x` is the UTF-8 encoding of a text without CR or LF) — for every message. -/
+theorem request_one_line (m : Msg) (w : Bytes) (h : requestBytes m = some w) :
+    w = encodeUtf8 (body m) ++ [CR, LF] ∧ LF ∉ encodeUtf8 (body m) ∧ oneLine (body m ++ ['\r', '\n']) = true := by
+  obtain ⟨hc, rfl⟩ := requestBytes_eq_some h
+  exact ⟨rfl, LF_not_mem_body m hc, oneLine_crlf _ (body_noBrk m hc)⟩
+
+example : requestBytes ⟨none, some "PING".toList, ["é".toList]⟩ = some [80, 73, 78, 71, 32, 0xc3, 0xa9, 13, 10] := by
+  decide
+
+/-- `IRC.line` on the rendered line of a well-formed message fires exactly the event
+    `expectedResp` describes (or raises exactly when that is `none`). -/
+theorem line_of_body (sock : Option Nat) (m : Msg) (hwf : wellFormed pyIsSpace m = true) :
+    ircLine sock (body m) = expectedResp sock m := by
+  have h := roundtrip pyIsSpace (by decide) m hwf
+  obtain ⟨pfx, command, args⟩ := m
+  cases command with
+  | none => simp [wellFormed] at hwf
+  | some c =>
+    simp only [ircLine, h, expectedParse, expectedResp]
+    cases pyInt (List.map asciiLower c) <;> simp
+
+example : wellFormed pyIsSpace ⟨some "srv".toList, some "433".toList, ["*".toList, "nick".toList, "in use".toList]⟩ = true := by
+  decide
+
+/-- Component round trip.  A well-formed message handed to `IRC.request` is written as bytes
+    `w`; when `w` arrives at a `Line` + `IRC` stack cut into reads in *any* way, `Line` emits
+    exactly one line and holds nothing back, and `IRC.line` fires for it the response event
+    carrying the message's prefix (as `parseprefix` shows it), its command (lower-cased as the
+    event name; or `numeric` with `int(command)` in front) and its arguments. -/
+theorem component_roundtrip (sock : Option Nat) (m : Msg) (hwf : wellFormed pyIsSpace m = true)
+    (w : Bytes) (hw : requestBytes m = some w) (segs : List Bytes) (hs : segs.flatten = w) :
+    feedAll [] segs = ([], [encodeUtf8 (body m)]) ∧
+    compLine sock (encodeUtf8 (body m)) = (expectedResp sock m,
+      match expectedResp sock m with | some r => (pingWrite r).toList | none => []) := by
+  obtain ⟨hc, rfl⟩ := requestBytes_eq_some hw
+  constructor
+  · rw [segmentation_invariant [] segs (by simp), hs]
+    have := line_of_render (encodeUtf8 (body m)) (LF_not_mem_body m hc)
+    simp [feed, splitLines, this]
+  · simp only [compLine, utf8_roundtrip, line_of_body sock m hwf]
+    cases expectedResp sock m <;> rfl
+
+example : wellFormed pyIsSpace ⟨some "n!u@h".toList, some "PRIVMSG".toList, ["#c".toList, "hi there".toList]⟩ = true ∧
+    requestBytes ⟨some "n!u@h".toList, some "PRIVMSG".toList, ["#c".toList, "hi there".toList]⟩
+      = some (encodeUtf8 ":n!u@h PRIVMSG #c :hi there\r\n".toList) ∧
+    ([encodeUtf8 ":n!u@h PRIV".toList, encodeUtf8 "MSG #c :hi there\r".toList, [10]] : List Bytes).flatten
+      = encodeUtf8 ":n!u@h PRIVMSG #c :hi there\r\n".toList := by decide
+
+/-- What that event is: prefix, arguments and socket of the message; the name is the
+    lower-cased command, unless the command starts with a digit — then it is `numeric` and
+    carries `int(command)`. -/
+theorem expected_response_fields (sock : Option Nat) (m : Msg) (r : Resp)
+    (h : expectedResp sock m = some r) :
+    r.sock = sock ∧ r.pfx = parsePrefix (m.pfx.getD []) ∧ r.args = m.args ∧
+    ∃ c, m.command = some c ∧
+      ((r.num = none ∧ r.name = c.map asciiLower) ∨
+       (r.name = "numeric".toList ∧ r.num = pyInt (c.map asciiLower) ∧ r.num ≠ none)) := by
+  obtain ⟨pfx, command, args⟩ := m
+  cases command with
+  | none => simp [expectedResp] at h
+  | some c =>
+    simp only [expectedResp] at h
+    by_cases hd : startsDigit (List.map asciiLower c) = true
+    · rw [if_pos hd] at h
+      cases hp : pyInt (List.map asciiLower c) with
+      | none => simp [hp] at h
+      | some k =>
+        simp only [hp, Option.map_some, Option.some.injEq] at h
+        subst h
+        exact ⟨rfl, rfl, rfl, c, rfl, Or.inr ⟨rfl, by simp [hp], by simp⟩⟩
+    · rw [if_neg hd] at h
+      split at h
+      · simp at h
+      · simp only [Option.some.injEq] at h
+        subst h
+        exact ⟨rfl, rfl, rfl, c, rfl, Or.inl ⟨rfl, rfl⟩⟩
+
+example : expectedResp (some 7) ⟨some "srv".toList, some "001".toList, ["nick".toList, "Welcome to IRC".toList]⟩
+    = some ⟨"numeric".toList, some 7, (some "srv".toList, none, none), some 1, ["nick".toList, "Welcome to IRC".toList]⟩ := by
+  decide
+
+/-- For a command without NUL that does not start with a digit the event always exists:
+    the component gives back prefix, command and arguments. -/
+theorem component_roundtrip_event (sock : Option Nat) (m : Msg) (c : Str) (hwf : wellFormed pyIsSpace m = true)
+    (hc : m.command = some c) (hd : startsDigit (c.map asciiLower) = false)
+    (h0 : (c.map asciiLower).contains (Char.ofNat 0) = false) :
+    ircLine sock (decodeUtf8 (encodeUtf8 (body m)))
+      = some ⟨c.map asciiLower, sock, parsePrefix (m.pfx.getD []), none, m.args⟩ := by
+  rw [utf8_roundtrip, line_of_body sock m hwf]
+  obtain ⟨pfx, command, args⟩ := m
+  simp only at hc
+  subst hc
+  simp only [expectedResp, hd, h0, Bool.false_eq_true, if_false]
+
+example : wellFormed pyIsSpace ⟨none, some "PiNG".toList, ["a b".toList]⟩ = true ∧
+    startsDigit ("PiNG".toList.map asciiLower) = false ∧
+    ("PiNG".toList.map asciiLower).contains (Char.ofNat 0) = false := by decide
+
+/-- The commands for which a well-formed message yields *no* event are exactly the ones on
+    which `IRC.line` raises: a digit-initial command that `int()` refuses, or NUL in the command
+    (`response.create` cannot make the event type). -/
+theorem component_roundtrip_excluded_witness :
+    wellFormed pyIsSpace ⟨none, some "12a".toList, ["x".toList]⟩ = true ∧
+    ircLine none (body ⟨none, some "12a".toList, ["x".toList]⟩) = none ∧
+    wellFormed pyIsSpace ⟨none, some ['A', Char.ofNat 0], ["x".toList]⟩ = true ∧
+    ircLine none (body ⟨none, some ['A', Char.ofNat 0], ["x".toList]⟩) = none := by decide
+
+/-- `IRC.ping` (client mode): a PING with one argument `a` is answered with one line, and a
+    component reading that line fires `pong` with the same single argument `a`. -/
+theorem ping_pong_same_args (p3 : Prefix3) (a : Str) (hl : lastOk pyIsSpace a = true)
+    (hb : a.any (fun c => c == '\n' || c == '\r') = false) :
+    ∃ x : Str, pingWrite ⟨"ping".toList, none, p3, none, [a]⟩ = some (encodeUtf8 x ++ [CR, LF]) ∧
+      LF ∉ encodeUtf8 x ∧
+      ircLine none (decodeUtf8 (encodeUtf8 x)) = some ⟨"pong".toList, none, (none, none, none), none, [a]⟩ := by
+  have hwf : wellFormed pyIsSpace (pongMsg a) = true := by
+    simp only [wellFormed, pongMsg, List.dropLast_singleton, List.all_nil, List.getLast?_singleton, hl,
+      Bool.and_true, Bool.true_and]
+    decide
+  have hchk : checkArgs Policy.current (pongMsg a) = true := by
+    rw [checkArgs_current_iff]
+    refine ⟨by simp [pongMsg], ?_, by simp [pongMsg], by simp [pongMsg, cmdStr, isBrk]⟩
+    intro b hb' c hc
+    simp only [pongMsg, List.mem_singleton] at hb'
+    subst hb'
+    have := List.any_eq_false.1 hb c hc
+    simpa [isBrk] using this
+  refine ⟨body (pongMsg a), ?_, LF_not_mem_body _ hchk, ?_⟩
+  · simp [pingWrite, requestBytes, render, hchk, encodeUtf8_append, encodeUtf8_crlf]
+  · rw [utf8_roundtrip, line_of_body none _ hwf]
+    rfl
+
+example : lastOk pyIsSpace "irc.example.org 12:00".toList = true ∧
+    "irc.example.org 12:00".toList.any (fun c => c == '\n' || c == '\r') = false := by decide
+
+/-- `ping` answers nothing in server mode or for another number of arguments; and the
+    arguments excluded above really are not echoed faithfully (inherent to the wire format):
+    an empty argument disappears, a leading colon is eaten, a CR is refused. -/
+theorem ping_pong_excluded_witness :
+    pingWrite ⟨"ping".toList, some 3, (none, none, none), none, ["a".toList]⟩ = none ∧
+    pingWrite ⟨"ping".toList, none, (none, none, none), none, []⟩ = none ∧
+    pingWrite ⟨"ping".toList, none, (none, none, none), none, ["a".toList, "b".toList]⟩ = none ∧
+    (compLine none (encodeUtf8 "PONG ".toList)).1 = some ⟨"pong".toList, none, (none, none, none), none, []⟩ ∧
+    pingWrite ⟨"ping".toList, none, (none, none, none), none, [":x".toList]⟩ = some (encodeUtf8 "PONG :x\r\n".toList) ∧
+    (compLine none (encodeUtf8 "PONG :x".toList)).1 = some ⟨"pong".toList, none, (none, none, none), none, ["x".toList]⟩ ∧
+    pingWrite ⟨"ping".toList, none, (none, none, none), none, ["a\rb".toList]⟩ = none := by decide
+
+/-! ### `strip` -/
+
+/-- Text without colour / format codes that does not start with a colon is left alone by
+    `strip` — so `strip` cannot alter a well-formed argument.  (`dig` = the `\d` of `re`.) -/
+theorem strip_plain_id (dig : Char → Bool) (color : Bool) (s : Str) (hp : plain s = true)
+    (hc : s.head? ≠ some ':') : strip dig color s = s := by
+  unfold strip
+  simp only [dropColon_id s hc]
+  cases color
+  · simp
+  · simp [stripFmt_plain_id dig s hp]
+
+example : plain "hello, 12 world".toList = true ∧ "hello, 12 world".toList.head? ≠ some ':' := by decide
+
+/-- Removing colours and formats is idempotent, and its result is plain. -/
+theorem strip_fmt_idempotent (dig : Char → Bool) (s : Str) :
+    plain (stripFmt dig s) = true ∧ stripFmt dig (stripFmt dig s) = stripFmt dig s :=
+  ⟨stripFmt_plain dig s, stripFmt_plain_id dig _ (stripFmt_plain dig s)⟩
+
+/-- `strip` as a whole is idempotent as soon as its result does not start with a colon
+    (full statement `strip dig color (strip dig color s) = strip dig color s` fails:
+    `strip_idempotent_witness`). -/
+theorem strip_idempotent_partial (dig : Char → Bool) (color : Bool) (s : Str)
+    (hc : (strip dig color s).head? ≠ some ':') :
+    strip dig color (strip dig color s) = strip dig color s := by
+  cases color
+  · have : strip dig false s = dropColon s := by simp [strip]
+    rw [this] at hc ⊢
+    simp [strip, dropColon_id _ hc]
+  · have e : strip dig true s = stripFmt dig (dropColon s) := by simp [strip]
+    rw [e] at hc ⊢
+    simp only [strip, dropColon_id _ hc, if_true]
+    exact (strip_fmt_idempotent dig _).2
+
+example : (strip pyIsDigit true ":\x0304,12red\x0f \x02bold".toList).head? ≠ some ':' := by decide
+
+/-- each call removes one more leading colon; a format code can hide one from the first call -/
+theorem strip_idempotent_witness :
+    strip pyIsDigit false "::a".toList = ":a".toList ∧
+    strip pyIsDigit false (strip pyIsDigit false "::a".toList) = "a".toList ∧
+    strip pyIsDigit true ['\x02', ':', 'a'] = ":a".toList ∧
+    strip pyIsDigit true (strip pyIsDigit true ['\x02', ':', 'a']) = "a".toList := by decide
+
+/-! ### `Message.from_string` -/
+
+/-- `from_string` on the serialised line gives the message back: prefix, command, arguments
+    (an empty prefix cannot be told from none — `from_string_excluded_witness`). -/
+theorem from_string_roundtrip (m : Msg) (hwf : wellFormed pyIsSpace m = true)
+    (hchk : checkArgs Policy.current m = true) (hlen : (encodeUtf8 (body m)).length ≤ 512)
+    (hp : m.pfx ≠ some []) :
+    fromString (encodeUtf8 (body m)) = some m := by
+  have h := roundtrip pyIsSpace (by decide) m hwf
+  have hlf : '\n' ∉ m.pfx.getD [] := by
+    intro hm
+    have := ((checkArgs_current_iff m).1 hchk).2.2.1 _ hm
+    simp [isBrk] at this
+  unfold fromString
+  rw [if_neg (by omega), utf8_roundtrip, h]
+  simp only [expectedParse, rejoin_parsePrefix _ hlf]
+  obtain ⟨pfx, command, args⟩ := m
+  cases pfx with
+  | none => simpa using hchk
+  | some p =>
+    have : p ≠ [] := fun e => hp (by simp [e])
+    simpa [this] using hchk
+
+example : wellFormed pyIsSpace ⟨some "n!u@h".toList, some "PRIVMSG".toList, ["#c".toList, "hi there".toList]⟩ = true ∧
+    checkArgs Policy.current ⟨some "n!u@h".toList, some "PRIVMSG".toList, ["#c".toList, "hi there".toList]⟩ = true ∧
+    (encodeUtf8 (body ⟨some "n!u@h".toList, some "PRIVMSG".toList, ["#c".toList, "hi there".toList]⟩)).length ≤ 512 ∧
+    (some "n!u@h".toList : Option Str) ≠ some [] := by decide
+
+/-- the defect repaired by the `fix:` commit (the parsed prefix tuple was passed on, its `str()`
+    became the prefix) is not expressible here; what remains excluded is inherent: an empty
+    prefix is read back as no prefix, and a line of more than 512 bytes is refused. -/
+theorem from_string_excluded_witness :
+    fromString (encodeUtf8 (body ⟨some [], some "X".toList, ["a".toList]⟩)) = some ⟨none, some "X".toList, ["a".toList]⟩ := by
+  decide
+
+/-- a line of more than 512 bytes is refused, whatever it contains -/
+theorem from_string_too_long (b : Bytes) (h : b.length > 512) : fromString b = none := by
+  simp [fromString, h]
+
+example : (List.replicate 513 (65 : UInt8)).length > 512 := by rw [List.length_replicate]; omega
 
 end CV.C18
